@@ -155,6 +155,12 @@ def build(t, on_node=None):
     k = t[0]
     if k == "m":
         v = parse_marker(t[1])
+    elif k == "mx":
+        # an atom built with the public constructor: the literal stays exactly as written (parse_marker hands the
+        # text to packaging, which canonicalises e.g. the names of extras first)
+        from dep_logic.markers.single import MarkerExpression
+
+        v = MarkerExpression(t[1], t[2], t[3])
     elif k == "any":
         v = AnyMarker()
     elif k == "empty":
@@ -187,6 +193,8 @@ def tree_text(t) -> str:
     k = t[0]
     if k == "m":
         return "`" + t[1] + "`"
+    if k == "mx":
+        return f'MarkerExpression(`{t[1]} {t[2]} "{t[3]}"`)'
     if k in ("any", "empty"):
         return k.upper()
     if k in ("and", "or"):
@@ -205,6 +213,8 @@ def tree_text(t) -> str:
 def tree_atoms(t) -> int:
     if t[0] == "m":
         return n_atoms(t[1])
+    if t[0] == "mx":
+        return 1
     return sum(tree_atoms(c) for c in t[1:] if isinstance(c, list) and c and isinstance(c[0], str) and c[0] in
                ("m", "and", "or", "only", "exclude", "noextras", "str", "any", "empty", "mof", "uof"))
 
